@@ -4,6 +4,21 @@ import SluProofs.Lemmas.DfsTopo
 The explicit-stack search of `Slu/Model/ColDfs.lean` (array-level mirror of [sdcz]column_dfs.c)
 computes the recursive depth-first search `dfsVisit`/`dfsList` of `Slu/Model/Dfs.lean` on the graph
 read off the arrays.
+
+* `rd_wr_*`, `slice_*`            arrays and slices;
+* `EnvOK`, `StOK`, `AppOK`, `MA`, `PostOK`   the invariants (what the search reads is well formed; `lsub` prefix frozen,
+                                  sizes, marked pivoted rows have a discovered representative; appended rows
+                                  distinct / unpivoted / marked and every marked unpivoted row appended; the list
+                                  of finished representatives is duplicate free, below jcol, and `segrep` has room);
+* `scan_rows`, `scanAt_all`       the machine started inside the pruned list of a representative `s` reaches the
+                                  point where `s` is popped, and in between does exactly what folding the recursive
+                                  visit over the successors found in the rest of the list does (`ScanRes`: finished
+                                  list, `segrep` extension, frames of `parent`/`xplore`, step bound, marks);
+* `rootStep_spec`, `search_spec`  one nonzero of the column = one recursive visit; the `for` loop = `dfsList`;
+* `wfIn_unpack`, `wfIn_env`, `wfIn_root`, `wfIn_fuel`   the decidable `wfIn` gives the invariants on entry;
+* `columnDfs_eq_dfsList`          the routine's `segrep` output = the recursive search (any visited set on entry);
+* `adjR_lt`, `rootCols_lt`, `adjR_eq_map`   the graph satisfies the hypotheses of the DfsTopo theorems / `snodeReps`;
+* `search_lsub`, `search_lsub_reach`   the rows appended to `lsub`.
 -/
 namespace Slu.ColDfs
 open Slu Slu.LU List
